@@ -55,3 +55,40 @@ func meterLine(t []string) (out string) {
 func init() {
 	handlers["meter"] = meterLine
 }
+
+// rxloop <cfg> <seed> <hexexpr> <n> : a host routine that evaluates a text through RunExpr up to n times and carries on when it fails
+// (only the budget error stops it). Reports how many evaluations were tolerated, the counter and the metered work.
+func rxLoopLine(t []string) (out string) {
+	if len(t) != 5 {
+		return "bad-op"
+	}
+	cfg, ok := parseCfg(t[1])
+	src, ok2 := unhx(t[3])
+	n, ok3 := atoi(t[4])
+	if !ok || !ok2 || !ok3 {
+		return "bad-op"
+	}
+	vm, ok := newVM(cfg, t[2])
+	if !ok {
+		return "bad-op"
+	}
+	ds.VerifMeterReset()
+	done, failed, stopped := 0, 0, "no"
+	return safely(func() string {
+		for i := int64(0); i < n; i++ {
+			_, err := vm.RunExpr(src, i%2 == 0)
+			if err != nil {
+				if err.Error() == "允许算力上限" {
+					stopped = "budget"
+					break
+				}
+				failed++
+			}
+			done++
+		}
+		d, r, f := ds.VerifMeterRead()
+		return fmt.Sprintf("done=%d failed=%d stopped=%s ops=%d disp=%d rolls=%d fates=%d", done, failed, stopped, vm.NumOpCount, d, r, f)
+	})
+}
+
+func init() { handlers["rxloop"] = rxLoopLine }
